@@ -7,6 +7,8 @@
  *   subst <lo> <hi>          one case per position: all 255 substitute values are tried in-process
  *   edit <pos> <ndel> <ins>  one case: delete ndel bytes at pos, insert ins
  *   file <blob>              one case: the blob as the whole file
+ *   allocfail <0|1>          subst cases additionally try every substitute with each single allocation of the open failing
+ *                            (allocator seam); reported as aopened=<value>:<k>,... and allocs=<allocations of a clean open>
  * output per case:
  *   S <idx> pos=<p> tried=255 opened=<list of values that opened, comma separated or -> cksum=<n rejected with the
  *           header-checksum message>
@@ -19,6 +21,7 @@ typedef struct {
     blob base;
     int adv;
     int pin_type; blob pin_digest; long pin_len; int have_pin_type, have_pin_digest, have_pin_len;
+    int allocfail;
     ocase *cases; int n;
 } octx;
 
@@ -27,6 +30,8 @@ static int try_open(int fd, octx *c, char *msg, size_t msgn) {
     if(!zck) die("zck_create");
     int ok = 0;
     real_lseek(fd, 0, SEEK_SET);
+    env_alloc_count = 0;
+    env_alloc_on = env_alloc_fail_at >= -1 && c->allocfail;
     if(!c->adv) {
         ok = zck_init_read(zck, fd);
     } else {
@@ -38,6 +43,7 @@ static int try_open(int fd, octx *c, char *msg, size_t msgn) {
         if(!ok) die("pins refused on base configuration: %s", zck_get_error(zck));
         ok = zck_read_lead(zck) && zck_read_header(zck);
     }
+    env_alloc_on = 0;
     if(msg) snprintf(msg, msgn, "%s", zck_get_error(zck));
     zck_free(&zck);
     return ok;
@@ -63,7 +69,27 @@ static void run_one(int idx, FILE *out, void *vctx) {
             } else if(strstr(msg, "Header checksum failed")) ncks++;
         }
         if(!nopen) fputc('-', out);
-        fprintf(out, " cksum=%d\n", ncks);
+        fprintf(out, " cksum=%d", ncks);
+        if(c->allocfail) {
+            /* allocations of a clean open of the unmodified base */
+            if(pwrite(fd, &orig, 1, pos) != 1) die("pwrite");
+            env_alloc_fail_at = -1;
+            try_open(fd, c, NULL, 0);
+            int nalloc = env_alloc_count, na = 0;
+            fprintf(out, " allocs=%d aopened=", nalloc);
+            for(int v = 0; v < 256; v++) {
+                if(v == orig) continue;
+                unsigned char b = v;
+                if(pwrite(fd, &b, 1, pos) != 1) die("pwrite");
+                for(int k = 0; k < nalloc + 2; k++) {
+                    env_alloc_fail_at = k;
+                    if(try_open(fd, c, NULL, 0)) { fprintf(out, "%s%d:%d", na ? "," : "", v, k); na++; }
+                }
+            }
+            env_alloc_fail_at = -1;
+            if(!na) fputc('-', out);
+        }
+        fputc('\n', out);
         real_close(fd);
     } else {
         blob m;
@@ -97,6 +123,7 @@ int cmd_openenum(FILE *job, FILE *out) {
         char **t = split_ws(line, &n);
         if(n == 0) { free(t); free(line); continue; }
         if(!strcmp(t[0], "mode")) c.adv = !strcmp(t[1], "adv");
+        else if(!strcmp(t[0], "allocfail")) c.allocfail = atoi(t[1]);
         else if(!strcmp(t[0], "base")) c.base = blob_arg(t[1]);
         else if(!strcmp(t[0], "pin")) {
             const char *v;
